@@ -281,6 +281,21 @@ func checkTAExclusive(e *executor, r *stepResult) *vfkit.Violation {
 	if v.snap == nil {
 		return nil
 	}
+	// remember in which kind of request a live container lost its grant
+	if e.scratch["lostGrant"] == nil {
+		e.scratch["lostGrant"] = map[string]string{}
+		e.scratch["hadGrant"] = map[string]bool{}
+	}
+	lost, had := e.scratch["lostGrant"].(map[string]string), e.scratch["hadGrant"].(map[string]bool)
+	for _, c := range e.m.live() {
+		if _, ok := v.grants[c.ID]; ok {
+			had[c.ID] = true
+			delete(lost, c.ID)
+		} else if had[c.ID] {
+			had[c.ID] = false
+			lost[c.ID] = r.Handler
+		}
+	}
 	// with pinCPU off the plugin pins nothing: cpusets the runtime still holds
 	// from an earlier configuration are not the plugin's current instruction
 	pinning := e.taCfg().PinCPU
@@ -318,6 +333,11 @@ func checkTAExclusive(e *executor, r *stepResult) *vfkit.Violation {
 				sig := "exclusive-in-other-containers-cpuset"
 				if _, has := v.grants[c.ID]; !has {
 					sig = "exclusive-in-cpuset-of-container-without-grant"
+					if h := lost[c.ID]; h == "Synchronize" || h == "updateConfig" {
+						sig = "exclusive-in-cpuset-of-container-that-could-not-be-reallocated-by-" + h
+					} else if h == "UpdateContainer" {
+						sig = "exclusive-in-cpuset-of-container-whose-failed-update-could-not-be-rolled-back"
+					}
 				} else if g := v.grants[c.ID]; g.CPUType == "normal" && set(g.Exclusive).Empty() && set(v.pools[g.Pool].FreeSharable).Empty() {
 					sig = "stale-cpuset-of-shared-container-whose-pool-has-no-shared-cpus-left"
 				} else if e.rejectedReconfigs > 0 && !v.pinningMatchesGrant(e, c) {
@@ -359,6 +379,14 @@ func checkTAExclusive(e *executor, r *stepResult) *vfkit.Violation {
 		staleSig := func(sig string) string {
 			if stale {
 				return "stale-cpuset-of-shared-container-whose-pool-has-no-shared-cpus-left"
+			}
+			if _, has := v.grants[c.ID]; !has {
+				switch lost[c.ID] {
+				case "Synchronize", "updateConfig":
+					return "exclusive-in-cpuset-of-container-that-could-not-be-reallocated-by-" + lost[c.ID]
+				case "UpdateContainer":
+					return "exclusive-in-cpuset-of-container-whose-failed-update-could-not-be-rolled-back"
+				}
 			}
 			return sig
 		}
@@ -475,7 +503,7 @@ func checkTACapacity(e *executor, r *stepResult) *vfkit.Violation {
 		// (c) eligibility
 		if !preserved {
 			want := e.refExclusive(c)
-			if c.AllocCfg != e.cfg && c.AllocCfg != nil {
+			if c.AllocCfg != nil && (c.AllocCfg != e.cfg || len(c.LaterCfgs) > 0) {
 				// grants are reinstated verbatim across a reconfiguration: the
 				// decision was taken under the configuration of that time (C13
 				// judges the new configuration)
@@ -493,8 +521,21 @@ func checkTACapacity(e *executor, r *stepResult) *vfkit.Violation {
 					okCnt = true
 				}
 			}
+			sigE := "eligibility-mismatch"
+			if !okCnt && len(c.FailedReqs) > 0 {
+				saved := c.ReqMilli
+				for _, fr := range c.FailedReqs {
+					c.ReqMilli = fr
+					for _, w := range e.refExclusive(c) {
+						if w == got {
+							sigE = "grant-follows-the-request-of-a-refused-UpdateContainer"
+						}
+					}
+				}
+				c.ReqMilli = saved
+			}
 			if !okCnt {
-				return viol(P, "exclusive CPU count follows the documented eligibility rules", "eligibility-mismatch",
+				return viol(P, "exclusive CPU count follows the documented eligibility rules", sigE,
 					"after %s: %s (ns %s, %s, request %dm, annotations %v) holds %d exclusive CPUs (%s), documented %v",
 					r.Desc, c.ID, e.m.pods[c.Pod].Spec.Namespace, e.m.pods[c.Pod].Spec.QoS, c.ReqMilli, e.m.pods[c.Pod].Spec.Annotations, got, g.Exclusive, want)
 			}
